@@ -86,6 +86,20 @@ def handle (op : String) (args : List String) : Option String :=
             toString (Spec.Wire.block b).length,
             ",".intercalate (b.vtx.map (fun t => toString (Spec.Merkle.txWeight t)))]
       | none => badArgs
+  -- a block built by the constructor from the CURRENT field values of its transactions, and what is
+  -- then observed on it: root kept/filled ; calc_merkle_root ; calc_witness_merkle_root ; GetWeight ;
+  -- calc_weight of each transaction
+  | "c15.blockobs", [blk] => some <| match parseBlock? blk with
+      | some b =>
+          (match Model.Merkle.blockCtor b.hdr b.vtx with
+           | .error e => "err:" ++ e.family
+           | .ok nb =>
+             ";".intercalate ["ok:" ++ toHex nb.hdr.hashMerkleRoot,
+               renderBytes (Model.Merkle.calcMerkleRoot nb.vtx),
+               renderBytes (Model.Merkle.calcWitnessMerkleRoot nb.vtx),
+               renderNat (Model.Merkle.getWeight nb),
+               ",".intercalate (nb.vtx.map (fun t => renderNat (Model.Merkle.calcWeight t)))])
+      | none => badArgs
   | _, _ => none
 
 end Driver.C15
